@@ -1144,6 +1144,43 @@ pub(crate) fn h_ifdata_empty_sequence() {
     vrt_observe_bool(r.is_ok());
 }
 
+/// multi-line block comments in front of tokens, with LF / CRLF / lone CR line ends: line bookkeeping
+/// (get_line_offset subtracts line numbers) must not underflow, and the layout must be stable over write + reload
+pub(crate) fn h_comment_layout_lineends() {
+    let nl = match vrt_choice(3) { 0 => "\n", 1 => "\r\n", _ => "\r" };
+    let k = vrt_choice(4);      // line breaks inside the comment
+    let j = vrt_choice(3);      // line breaks between the comment and the next token
+    let site = vrt_choice(3);   // header / in front of MODULE / in front of /end MODULE
+    let mut c = String::from("/* a");
+    for _ in 0..k { c.push_str(nl); c.push_str(" b"); }
+    c.push_str(" */");
+    for _ in 0..j { c.push_str(nl); }
+    if j == 0 { c.push(' '); }
+    let mut t = String::new();
+    if site == 0 { t.push_str(&c); }
+    t.push_str("ASAP2_VERSION 1 71"); t.push_str(nl);
+    t.push_str("/begin PROJECT p \"\""); t.push_str(nl);
+    if site == 1 { t.push_str(&c); }
+    t.push_str("/begin MODULE m \"\""); t.push_str(nl);
+    if site == 2 { t.push_str(&c); }
+    t.push_str("/end MODULE"); t.push_str(nl);
+    t.push_str("/end PROJECT");
+    match load_from_string(&t, None, true) {
+        Ok((file, _)) => {
+            let out1 = file.write_to_string();
+            match load_from_string(&out1, None, true) {
+                Ok((file2, _)) => {
+                    vrt_check(file2 == file, "C01 reload of a document with a multi-line comment gives an equal model");
+                    vrt_check(file2.write_to_string() == out1, "C05 layout with a multi-line comment is stable over write and reload");
+                }
+                Err(_) => vrt_check(false, "C01 written document with a multi-line comment loads again"),
+            }
+        }
+        Err(_) => vrt_check(false, "C03 a valid document with a multi-line comment loads in strict mode"),
+    }
+    vrt_cover(true, "comment_layout_end");
+}
+
 /// uninterpreted IF_DATA (no A2ML definition): arbitrary lexeme soups inside the block, including comments, an embedded
 /// `/begin A2ML` section whose raw text is a single quote, unbalanced /begin and /end and the end of input.
 /// Loading must return (Ok or Err): no panic, no hang.
